@@ -228,6 +228,11 @@ def gen_case(rng, tier, index):
             bad += [lo - 1, lo - rng.randrange(1, 1 << 20), -(1 << 64)]
         if hi is not None:
             bad += [hi + 1, hi + rng.randrange(1, 1 << 20), 1 << 70]
+            # (what a sign extension of a small negative number looks like)
+            bad += [x for x in ((1 << 64) - 1,
+                                (1 << 64) - rng.randrange(1, 1 << 31),
+                                (1 << 32) - 1, (1 << 32) + 1)
+                    if x > hi]
         vals = []
         for j, k in enumerate(kinds):
             if k == "expr":
